@@ -81,6 +81,11 @@ fn spec_view(sp: ChannelSpec, probs: &mut Vec<String>) -> Vec<i64> {
     dims
 }
 
+/// dimension values as decimal text (the specification carries them as text: TLC integers are 32-bit)
+fn txt(v: &[i64]) -> Vec<String> {
+    v.iter().map(|x| x.to_string()).collect()
+}
+
 fn expected_entry(e: &Value) -> Value {
     // normalise the specification's entry to the shape the harness observes
     let dims = |a: &Value| -> Value { Value::Array(a.as_array().unwrap().iter().map(|d| d["v"].clone()).collect()) };
@@ -125,13 +130,13 @@ pub fn replay(args: &[String]) -> i32 {
                             ended_with_err = true;
                             break;
                         }
-                        Ok(channel_list::Token::ChannelSpec(a)) => got.push(json!({"k": "spec", "a": spec_view(a, &mut probs)})),
+                        Ok(channel_list::Token::ChannelSpec(a)) => got.push(json!({"k": "spec", "a": txt(&spec_view(a, &mut probs))})),
                         Ok(channel_list::Token::ChannelRange(a, b)) => {
                             let (va, vb) = (spec_view(a, &mut probs), spec_view(b, &mut probs));
                             if va.len() != vb.len() {
                                 probs.push("range ends of different dimension yielded".into());
                             }
-                            got.push(json!({"k": "range", "a": va, "b": vb}))
+                            got.push(json!({"k": "range", "a": txt(&va), "b": txt(&vb)}))
                         }
                         Ok(channel_list::Token::PathName(p)) => got.push(json!({"k": "path", "p": bytes_json(p)})),
                         Ok(channel_list::Token::ModuleChannel(..)) => got.push(json!({"k": "module"})),
